@@ -84,6 +84,7 @@ class Ctx(object):
         self.logic = logic
         self._fresh = 0
         self.bounds = {}        # z3 var name -> (lo, hi)
+        self.tbounds = {}       # term id -> (term, lo, hi): bounds known by construction
         self.side = []          # BV no-overflow side conditions on this path
         self.reached = set()    # labels of reach() markers hit on some path
         self.notes = []
@@ -97,6 +98,7 @@ class Ctx(object):
         self.side = []
         self._fresh = 0
         self.bounds = {}
+        self.tbounds = {}
         if self.logic:
             self.solver = z3.SolverFor(self.logic)
         else:
@@ -545,6 +547,19 @@ class SInt(object):
         return base ** k
 
     @staticmethod
+    def _divmod_const(a, at, bc, c):
+        """floor div / mod by a positive constant"""
+        if c.bv and (bc & (bc - 1)) == 0:
+            k = bc.bit_length() - 1
+            return _mk(at >> k), _mk(at & lift(bc - 1))
+        if c.bv:
+            bt = lift(bc)
+            m = z3.SRem(at, bt)
+            neg = m < 0
+            return _mk(z3.If(neg, at / bt - 1, at / bt)), _mk(z3.If(neg, m + bt, m))
+        return _mk(at / z3.IntVal(bc)), _mk(at % z3.IntVal(bc))
+
+    @staticmethod
     def _divmod(a, b):
         """Python floor division and modulo of a by b (either symbolic)."""
         c = ctx()
@@ -553,6 +568,15 @@ class SInt(object):
             return None, a
         bc = b if isinstance(b, int) else _const_of(b.t)
         at = lift(a)
+        if bc is not None and bc > 0:
+            q, m = SInt._divmod_const(a, at, bc, c)
+            if isinstance(m, SInt):
+                c.tbounds[m.t.get_id()] = (m.t, 0, bc - 1)
+            if isinstance(q, SInt) and isinstance(a, SInt):
+                lo, hi = interval(a)
+                if lo is not None and hi is not None:
+                    c.tbounds[q.t.get_id()] = (q.t, lo // bc, hi // bc)
+            return q, m
         if bc is not None:
             if bc == 0:
                 raise ZeroDivisionError("integer division or modulo by zero")
@@ -861,6 +885,9 @@ def _ival(t, memo):
 
 def _ival1(t, memo):
     c = ctx()
+    tb = c.tbounds.get(t.get_id())
+    if tb is not None and tb[0].eq(t):
+        return (tb[1], tb[2])
     v = _const_of(t) if t.num_args() == 0 else None
     if v is not None:
         return (v, v)
